@@ -186,6 +186,22 @@ def scaleAux (c : α) (which : Nat) : Nat → List (Site α) → List (Site α)
 /-- `scale_factors(factors, scalar, which=which)` (an out-of-range `which` scales nothing) -/
 def scaleFactors (c : α) (which : Nat) (fs : List (Site α)) : List (Site α) := scaleAux c which 0 fs
 
+/-- `MPS.__rmul__` / `__imul__`: the scalar is absorbed into the factor at the *recorded* orthogonality
+centre (`which = self.orthogonality_center if … is not None else 0`) and the result inherits that centre —
+so that `norm()` (the Frobenius norm of the centre factor) and the centre walks see the scaled factor. -/
+def rmulFactors (c : α) (center : Option Nat) (fs : List (Site α)) : List (Site α) × Option Nat :=
+  (scaleFactors c (center.getD 0) fs, center)
+
+/-- squared Frobenius norm of one factor -/
+def factorNormSq (A : Site α) : α :=
+  sumTo A.d (fun x => sumTo A.dl (fun l => sumTo A.dr (fun r => conj (A.t x l r) * A.t x l r)))
+
+/-- `norm()**2` for a state with recorded centre `k`: `factors[k].norm()**2` (`0` if there is no such factor) -/
+def normSqAtCenter (fs : List (Site α)) (k : Nat) : α :=
+  match fs[k]? with
+  | some A => factorNormSq A
+  | none => 0
+
 /-! ### `MPS.inner` -/
 
 /-- one iteration of the loop in `MPS.inner`: `acc ← A†·(acc·B)` -/
